@@ -7,13 +7,17 @@ Definition jaddr (a : addr) : jv :=
   | AInet ip port => JL [JB ip; JZ port]
   | APath p => JB p
   end.
+Definition jfam (t : tagged) : jv :=
+  match t with TEnum n => JC "AddressFamily" [JZ n] | TInt n => JC "int" [JZ n] end.
+Definition jkind (t : tagged) : jv :=
+  match t with TEnum n => JC "SocketKind" [JZ n] | TInt n => JC "int" [JZ n] end.
 Definition jrow (r : row) : jv :=
-  JL [JZ (r_fd r); JZ (r_family r); JZ (r_type r); jaddr (r_laddr r); jaddr (r_raddr r);
+  JL [JZ (r_fd r); jfam (r_family r); jkind (r_type r); jaddr (r_laddr r); jaddr (r_raddr r);
       JB (r_status r); jopt JZ (r_pid r)].
 Definition jrows (rs : list row) : jv := JL (map jrow rs).
 Definition jowner (o : option Z * Z) : jv := JL [jopt JZ (fst o); JZ (snd o)].
 Definition jentry (e : entry) : jv :=
-  JL [JZ (e_family e); JZ (e_type e); jaddr (e_laddr e); jaddr (e_raddr e); JB (e_status e);
+  JL [jfam (e_family e); jkind (e_type e); jaddr (e_laddr e); jaddr (e_raddr e); JB (e_status e);
       JL (map jowner (e_owners e))].
 Definition jentries (es : list entry) : jv := JL (map jentry es).
 
